@@ -5,73 +5,143 @@ Vocabulary (shared with the Coq model and ocaml/c16_driver.ml):
 
   state   Kind.D.c.cat      Kind in KINDS; D = dimensionality (0 for pointers / element references);
                             c = m|c (top-level const of the expression's type); cat = L|R (lvalue / rvalue)
+  kind    <prefix>[<IsConst>]<pointer family>
+            prefix          Arr SArr ARef Sub CSub It ER EI Cu Pt SP Elem ArrS
+            pointer family  0 = int*           1 = int const*           M = move_ptr<int, int*>
+                            TmR TmC TcC TmV TcV = transform_ptr<int, F, S*|S const* (m|c), int& | int const& | int (R|C|V)>
+                                                  (any functor F; `int` and `int const` are one family: V)
+                            S0 S1 = S*, S const*  (struct element S {int a; int b;}: only as the source of projections)
   op      one of OPS        an expression template over a receiver X
-  outcome To:<state> | To:Val | To:Other | Mut | NoDef | No | Hard     (NoDef: accepted, but the member is only declared: does not link)
+  outcome To:<state> | To:Val | To:Copy:<state> | To:Other | Mut | NoDef | No | Hard
+            (To:Copy: a prvalue owning array, a detached copy; NoDef: accepted, but the member is only declared)
 
 Each row (state, op) is turned into ONE line of C++ that (1) decides with the detection idiom whether
 `EXPR(X)` is well-formed for X = std::declval<canonical type of the state>(), (2) classifies
-decltype((EXPR)) back into a state with exact type comparisons against the canonical types, (3) when
-well-formed, also instantiates the expression inside a function body, so that member functions whose
-*declaration* is accepted but whose *body* does not compile are seen (as a compile error of the TU,
-attributed to the row through its line number).  Rows whose outcome is `Hard` (ill-formed, but not a
+decltype((EXPR)) back into a state by pattern matching on the library's class templates (functor-agnostic for
+transform_ptr), (3) when well-formed, also instantiates the expression inside a function body, so that member
+functions whose *declaration* is accepted but whose *body* does not compile are seen (as a compile error of
+the TU, attributed to the row through its line number).  Rows whose outcome is `Hard` (ill-formed, but not a
 substitution failure) are compiled alone and must fail.
 
 Nothing here depends on the Coq model: the module only knows the vocabulary.  vlib/c16.py compares what
 these probes print with what the extracted model prints.
 """
-import itertools
+import re
 
 INT = "int"
 
 # ---------------------------------------------------------------------------------------------
 # kinds and canonical C++ types
 # ---------------------------------------------------------------------------------------------
-VIEW_KINDS = ["Arr", "SArr", "ARef0", "ARef1", "Sub0", "Sub1", "CSub0", "CSub1"]
-ITER_KINDS = ["It00", "It01", "It10", "It11"]          # It<IsConst><pointer-to-const>
-RANGE_KINDS = ["ER0", "ER1"]                           # elements_range_t<int*|int const*, layout_t<D>>
-EITER_KINDS = ["EI0", "EI1"]                           # elements_iterator_t
-CURSOR_KINDS = ["Cu0", "Cu1"]                          # cursor_t
-PTR_KINDS = ["Pt0", "Pt1"]                             # int*, int const*
-SPTR_KINDS = ["SP00", "SP01", "SP10", "SP11"]          # subarray_ptr<int, D, ptr, layout, IsConst>: SP<IsConst><pointer-to-const>
+PF_INT = ["0", "1"]
+PF_TR = ["TmR", "TmC", "TcC", "TmV", "TcV"]
+PF_MOVE = ["M"]
+PF_S = ["S0", "S1"]
+PF_ELEM_INT = PF_INT + PF_TR + PF_MOVE          # pointer families whose element type is int
+PF_ALL = PF_ELEM_INT + PF_S
+
+_KIND_RE = re.compile(r"^(ArrS|Arr|SArr|ARef|CSub|Sub|It|ER|EI|Cu|Pt|SP|Elem)([01])?(%s)?$" % "|".join(sorted(PF_ALL, key=len, reverse=True)))
+
+
+def parse_kind(k):
+    """-> (prefix, IsConst '0'|'1'|None, pointer family or None)"""
+    if k in ("Arr", "SArr", "Elem", "ArrS"):
+        return k, None, None
+    for pre in ("ARef", "CSub", "Sub", "It", "ER", "EI", "Cu", "Pt", "SP"):
+        if k.startswith(pre):
+            rest = k[len(pre):]
+            if pre in ("It", "SP"):
+                if rest[:1] in ("0", "1") and rest[1:] in PF_ALL:
+                    return pre, rest[0], rest[1:]
+            elif rest in PF_ALL:
+                return pre, None, rest
+    raise ValueError(k)
+
+
+def mk_kind(pre, c, pf):
+    if pre in ("Arr", "SArr", "Elem", "ArrS"):
+        return pre
+    return pre + (c if pre in ("It", "SP") else "") + pf
+
+
+def pf_of(k):
+    """pointer family of a kind; the owning arrays are over int*"""
+    pre, _c, pf = parse_kind(k)
+    if pre in ("Arr", "SArr"):
+        return "0"
+    if pre == "ArrS":
+        return "S0"
+    return pf
+
+
+PF_AREF = ["0", "1", "M"]                         # array_ref is produced over these only (array_ref::element_moved -> move_ptr)
+VIEW_KINDS = ["Arr", "SArr"] + ["ARef" + f for f in PF_AREF] + [p + f for p in ("Sub", "CSub") for f in PF_ELEM_INT]
+S_VIEW_KINDS = ["ArrS"] + [p + f for p in ("Sub", "CSub") for f in PF_S]
+ITER_KINDS = ["It" + c + f for c in "01" for f in PF_ELEM_INT]      # It<IsConst><pointer family>
+RANGE_KINDS = ["ER" + f for f in PF_ELEM_INT]                       # elements_range_t<ptr, layout_t<D>>
+EITER_KINDS = ["EI" + f for f in PF_ELEM_INT]                       # elements_iterator_t
+CURSOR_KINDS = ["Cu" + f for f in PF_ELEM_INT]                      # cursor_t
+PTR_KINDS = ["Pt" + f for f in PF_ALL]                              # the element pointers themselves
+SPTR_KINDS = ["SP" + c + f for c in "01" for f in PF_ELEM_INT]      # subarray_ptr<int, D, ptr, layout, IsConst>
 VALUE_KINDS = ITER_KINDS + EITER_KINDS + CURSOR_KINDS + PTR_KINDS + SPTR_KINDS   # copyable handles: assigning/swapping them is not an array write
-KINDS = VIEW_KINDS + ITER_KINDS + RANGE_KINDS + EITER_KINDS + CURSOR_KINDS + PTR_KINDS + SPTR_KINDS + ["Elem"]
+KINDS = VIEW_KINDS + S_VIEW_KINDS + ITER_KINDS + RANGE_KINDS + EITER_KINDS + CURSOR_KINDS + PTR_KINDS + SPTR_KINDS + ["Elem"]
 DIM0_KINDS = PTR_KINDS + ["Elem"]
 
 MAXD_CANON = 8     # canonical types are declared for D up to this (paths of depth 3 from D=3 reach D=6)
 
 
-def ptr(pc):
-    return "int const*" if pc else "int*"
+def is_old_kind(k):
+    """the 25 kinds of the first version of the table (int*, int const*)"""
+    pre, _c, pf = parse_kind(k)
+    return pf in (None, "0", "1") and pre != "ArrS"
+
+
+def ptr(pf):
+    return {
+        "0": "int*", "1": "int const*", "M": "multi::move_ptr<int, int*>",
+        "TmR": "multi::transform_ptr<int, int c16::S::*, c16::S*, int&>",
+        "TmC": "multi::transform_ptr<int, int c16::S::*, c16::S*, int const&>",
+        "TcC": "multi::transform_ptr<int, int c16::S::*, c16::S const*, int const&>",
+        "TmV": "multi::transform_ptr<int, c16::LV, c16::S*, int>",
+        "TcV": "multi::transform_ptr<int, c16::LV, c16::S const*, int>",
+        "S0": "c16::S*", "S1": "c16::S const*",
+    }[pf]
+
+
+def elem_of(pf):
+    return "c16::S" if pf in PF_S else "int"
 
 
 def base_type(kind, d):
     """C++ text of the unqualified canonical type of (kind, D)."""
-    if kind == "Arr":
+    pre, c, pf = parse_kind(kind)
+    if pre == "Arr":
         return "multi::array<int, %d>" % d
-    if kind == "SArr":
+    if pre == "SArr":
         return "multi::static_array<int, %d>" % d
-    if kind in ("ARef0", "ARef1"):
-        return "multi::array_ref<int, %d, %s>" % (d, ptr(kind[-1] == "1"))
-    if kind in ("Sub0", "Sub1"):
-        return "multi::subarray<int, %d, %s>" % (d, ptr(kind[-1] == "1"))
-    if kind in ("CSub0", "CSub1"):
-        return "multi::const_subarray<int, %d, %s>" % (d, ptr(kind[-1] == "1"))
-    if kind in ITER_KINDS:
-        c, pc = kind[2] == "1", kind[3] == "1"
-        return "typename multi::const_subarray<int, %d, %s>::%s" % (d, ptr(pc), "const_iterator" if c else "iterator")
-    if kind in RANGE_KINDS:
-        return "typename multi::const_subarray<int, %d, %s>::elements_range" % (d, ptr(kind[-1] == "1"))
-    if kind in EITER_KINDS:
-        return "typename multi::const_subarray<int, %d, %s>::elements_range::iterator" % (d, ptr(kind[-1] == "1"))
-    if kind in CURSOR_KINDS:
-        return "typename multi::const_subarray<int, %d, %s>::cursor" % (d, ptr(kind[-1] == "1"))
-    if kind in PTR_KINDS:
-        return ptr(kind[-1] == "1")
-    if kind in SPTR_KINDS:
-        c, pc = kind[2] == "1", kind[3] == "1"
-        return "multi::subarray_ptr<int, %d, %s, multi::layout_t<%d>, %s>" % (d, ptr(pc), d, "true" if c else "false")
-    if kind == "Elem":
+    if pre == "ArrS":
+        return "multi::array<c16::S, %d>" % d
+    if pre == "Elem":
         return "int"
+    el, p = elem_of(pf), ptr(pf)
+    if pre == "ARef":
+        return "multi::array_ref<%s, %d, %s>" % (el, d, p)
+    if pre == "Sub":
+        return "multi::subarray<%s, %d, %s>" % (el, d, p)
+    if pre == "CSub":
+        return "multi::const_subarray<%s, %d, %s>" % (el, d, p)
+    if pre == "It":
+        return "typename multi::const_subarray<%s, %d, %s>::%s" % (el, d, p, "const_iterator" if c == "1" else "iterator")
+    if pre == "ER":
+        return "typename multi::const_subarray<%s, %d, %s>::elements_range" % (el, d, p)
+    if pre == "EI":
+        return "typename multi::const_subarray<%s, %d, %s>::elements_range::iterator" % (el, d, p)
+    if pre == "Cu":
+        return "typename multi::const_subarray<%s, %d, %s>::cursor" % (el, d, p)
+    if pre == "Pt":
+        return p
+    if pre == "SP":
+        return "multi::subarray_ptr<%s, %d, %s, multi::layout_t<%d>, %s>" % (el, d, p, d, "true" if c == "1" else "false")
     raise ValueError(kind)
 
 
@@ -109,10 +179,12 @@ class State:
         return "c16::%s%s%s" % (self.alias(), " const" if self.c == "c" else "", "&" if self.cat == "L" else "&&")
 
 
-def all_states(kinds=None, maxd=3):
+def all_states(kinds=None, maxd=3, maxd_new=None):
+    """maxd_new: dimensionalities of the kinds over the pointer families added by the projections (default: maxd)"""
     out = []
     for k in (kinds or KINDS):
-        for d in dims_of(k, maxd):
+        md = maxd if (maxd_new is None or is_old_kind(k)) else maxd_new
+        for d in dims_of(k, md):
             for c in "mc":
                 for cat in "LR":
                     out.append(State(k, d, c, cat))
@@ -175,29 +247,132 @@ ACCESS_OPS = [
     ("AddressOf", "X.addressof()"),
     ("Arrow", "X.operator->()"),
 ]
+# (a) projections
+PROJ_OPS = [
+    ("ETransMP", "X.element_transformed(&c16::S::b)"),          # member pointer
+    ("ETransLR", "X.element_transformed(c16::LR{})"),           # S& -> int&
+    ("ETransLC", "X.element_transformed(c16::LC{})"),           # S const& -> int const&
+    ("ETransLV", "X.element_transformed(c16::LV{})"),           # S const& -> int
+    ("MemberCast", "X.template member_cast<int>(&c16::S::b)"),
+    ("ReinterpretN", "X.template reinterpret_array_cast<int>(2)"),
+    ("Reinterpret", "X.template reinterpret_array_cast<int>()"),
+    ("StaticCast", "X.template static_array_cast<int>()"),
+    ("StaticCastC", "X.template static_array_cast<int const>()"),
+    ("ConstCast", "X.const_array_cast()"),
+    ("ElementMoved", "X.element_moved()"),
+    ("Moved", "X.move()"),
+]
+# (c) other members through which a handle gives access to elements
+MISC_OPS = [
+    ("MutableBase", "X.mutable_base()"),
+    ("CBase", "X.cbase()"),
+    ("ElementsAt", "X.elements_at(0)"),
+    ("Apply", None),              # X.apply(std::make_tuple(1, ..., 1))
+    ("Data", "X.data()"),
+]
+# (b) conversions.  Handles (iterator, subarray_ptr, elements iterator, cursor, element pointer): Cv<form><IsConst'><pointer'>
+#     form I = implicit (copy-initialisation of a parameter), E = explicit (static_cast<T>), A = assignment to an lvalue T;
+#     the target T is the handle of the same family with IsConst' in {0, 1} and the pointer in its mutable (m) / const (c) variant.
+CONV_FORMS = "IEA"
+CONV_OPS = [("Cv%s%s%s" % (f, c, p), None) for f in CONV_FORMS for c in "01" for p in "mc"]
+CMP_OPS = [("EqM", None), ("EqC", None)]     # X == (mutable handle), X == (const handle / handle over the const pointer)
+#     Views: To<Sub|CSub|ARef><form><pointer'>, form I | E (construction; assignment to a view is the mutator Assign)
+VCONV_TARGETS = ["Sub", "CSub", "ARef"]
+VCONV_OPS = [("To%s%s%s" % (t, f, p), None) for t in VCONV_TARGETS for f in "IE" for p in "mc"]
+DECAY_OPS = [("UPlus", "+X"), ("Decay", "X.decay()"), ("ToArr", None)]      # copies into an owning array
+
 LANG_OPS = [("Move", None), ("BindRef", None), ("BindCRef", None)]      # language-level steps
 MUTATOR_OPS = [("Assign", None), ("Fill", None), ("Swap", None), ("MSwap", None)]
-OPS = ACCESS_OPS + LANG_OPS + MUTATOR_OPS
+NEW_OPS = PROJ_OPS + MISC_OPS + CONV_OPS + CMP_OPS + VCONV_OPS + DECAY_OPS
+OPS = ACCESS_OPS + NEW_OPS + LANG_OPS + MUTATOR_OPS
 OP_NAMES = [n for n, _ in OPS]
-ACCESS_NAMES = [n for n, _ in ACCESS_OPS]
+ACCESS_NAMES = [n for n, _ in ACCESS_OPS + NEW_OPS]
+OLD_ACCESS_NAMES = [n for n, _ in ACCESS_OPS]
 LANG_NAMES = [n for n, _ in LANG_OPS]
 MUTATOR_NAMES = [n for n, _ in MUTATOR_OPS]
+CONV_NAMES = [n for n, _ in CONV_OPS]
+CMP_NAMES = [n for n, _ in CMP_OPS]
+VCONV_NAMES = [n for n, _ in VCONV_OPS]
+DECAY_NAMES = [n for n, _ in DECAY_OPS]
+PROJ_NAMES = [n for n, _ in PROJ_OPS]
+S_SOURCE_OPS = ["ETransMP", "ETransLR", "ETransLC", "ETransLV", "MemberCast", "ReinterpretN"]   # defined for struct elements only
 OP_EXPR = dict(OPS)
 
 # ops that are *meant* to yield a read-only result from a mutable receiver
-CONST_MAKING = {"CBegin", "CEnd", "CElements", "ConstElements", "AsConst", "BindCRef"}
+CONST_MAKING = {"CBegin", "CEnd", "CElements", "ConstElements", "AsConst", "BindCRef", "CBase", "StaticCastC"}
+# the operations of a struct-element array / view that are modelled (it is only the source of the projections)
+S_KIND_OPS = set(["Index", "Call0", "AsConst", "Base", "Move", "BindRef", "BindCRef", "ConstCast"] + S_SOURCE_OPS)
+# what S*, S const* support in the model
+S_PTR_OPS = {"Deref", "Index", "Plus1", "Move", "BindRef", "BindCRef", "AddrOf"}
+
+
+def pf_variant(pf, which):
+    """the mutable (m) / const (c) variant of a pointer family, as used by the conversion targets"""
+    if which == "m":
+        return {"0": "0", "1": "0", "TmR": "TmR", "TmC": "TmR", "TcC": "TcC", "TmV": "TmV", "TcV": "TcV", "M": "M", "S0": "S0", "S1": "S0"}[pf]
+    return {"0": "1", "1": "1", "TmR": "TmC", "TmC": "TmC", "TcC": "TcC", "TmV": "TmV", "TcV": "TcV", "M": "1", "S0": "S1", "S1": "S1"}[pf]
+
+
+def conv_target(kind, op):
+    """kind of the target type of a conversion / comparison op for a receiver of this kind; None: not defined"""
+    pre, c, pf = parse_kind(kind)
+    if pf_of(kind) in ("TmV", "TcV"):
+        return None     # `int` and `int const` references are one family: the canonical target type is not the type of every member
+    if op in CONV_NAMES or op in CMP_NAMES:
+        if pre not in ("It", "SP", "EI", "Cu", "Pt") or pf in PF_S:
+            return None
+        if op in CMP_NAMES:
+            if pre in ("It", "SP"):
+                return mk_kind(pre, "0" if op == "EqM" else "1", pf_variant(pf, "m"))
+            return mk_kind(pre, None, pf_variant(pf, "m" if op == "EqM" else "c"))
+        c2, p2 = op[3], op[4]
+        if pre in ("It", "SP"):
+            return mk_kind(pre, c2, pf_variant(pf, p2))
+        if c2 == "1":
+            return None
+        return mk_kind(pre, None, pf_variant(pf, p2))
+    if op in VCONV_NAMES:
+        if kind not in VIEW_KINDS:
+            return None
+        m = re.match(r"^To(Sub|CSub|ARef)([IE])([mc])$", op)
+        t = mk_kind(m.group(1), None, pf_variant(pf_of(kind), m.group(3)))
+        return t if t in VIEW_KINDS else None
+    return None
+
+
+def conv_form(op):
+    if op in CONV_NAMES:
+        return op[2]
+    if op in VCONV_NAMES:
+        return op[-2]
+    return None
 
 
 def applicable(kind, op):
-    """Swap/MSwap/Assign of a copyable handle (iterator, cursor, pointer) re-seats the handle, it does not
-    write array elements: not a writability probe (outcome NA in the model, no row here)."""
+    """Rows outside the modelled fragment (outcome NA in the model, no row here):
+    - Swap/MSwap/Assign of a copyable handle re-seats the handle, it does not write array elements;
+    - a conversion op on a receiver for which the target type is not defined;
+    - struct-element arrays / views / pointers: only the operations they are modelled with; the struct-only projections elsewhere."""
+    pre, c, pf = parse_kind(kind)
     if op in ("Swap", "MSwap", "Assign") and kind in VALUE_KINDS:
         return False
+    if op in CONV_NAMES or op in CMP_NAMES or op in VCONV_NAMES:
+        return conv_target(kind, op) is not None
+    if kind in S_VIEW_KINDS:
+        return op in S_KIND_OPS
+    if pf in PF_S:      # PtS0, PtS1
+        return op in S_PTR_OPS
+    if op in S_SOURCE_OPS:
+        return False
+    if op in ("ToArr", "UPlus", "Decay"):
+        return kind in VIEW_KINDS
+    if op == "Reinterpret":         # reinterpret_pointer_cast is defined for raw pointers only
+        return kind in VIEW_KINDS and pf_of(kind) in PF_INT
     return True
 
 
 def rhs_type(op, kind, d):
-    """type of the right-hand side / argument object of a mutator (None: a literal is used)"""
+    """type of the right-hand side / argument object of a mutator or of a conversion (None: a literal is used)"""
     if op == "Assign":
         if kind in VIEW_KINDS:
             return "multi::array<int, %d> const&" % d
@@ -205,6 +380,10 @@ def rhs_type(op, kind, d):
             return "multi::subarray<int, %d, int*>&" % d
     if op == "Fill" and kind in VIEW_KINDS and d >= 2:
         return "multi::array<int, %d> const&" % (d - 1)      # fill(v) assigns v to every (D-1)-dimensional item
+    if op in CONV_NAMES and op[2] == "A":
+        return "c16::B_%s_%d&" % (conv_target(kind, op), d)
+    if op in CMP_NAMES:
+        return "c16::B_%s_%d const&" % (conv_target(kind, op), d)
     return None
 
 
@@ -217,13 +396,16 @@ def rhs_expr(op, kind, d, r):
     return r
 
 
-def expr_of(op, kind, d, x, r=None):
+def expr_of(op, kind, d, x, r=None, body=False):
     """C++ expression text of `op` applied to the receiver expression text x (already parenthesised if needed);
-    r = expression of the argument object of a mutator (default: std::declval of its type)."""
+    r = expression of the argument object of a mutator (default: std::declval of its type).  body: the text is
+    going to be evaluated inside a function body (no std::declval)."""
     if r is None and rhs_type(op, kind, d):
         r = "std::declval<%s>()" % rhs_type(op, kind, d)
     if op == "CallAll":
         return "%s(%s)" % (x, ones(max(d, 1)))
+    if op == "Apply":
+        return "%s.apply(std::make_tuple(%s))" % (x, ones(max(d, 1)))
     if op == "Move":
         return "std::move(%s)" % x
     if op == "Assign":
@@ -234,6 +416,20 @@ def expr_of(op, kind, d, x, r=None):
         return "c16::adl_swap(%s, %s)" % (x, x)
     if op == "MSwap":
         return "%s.swap(%s)" % (x, x)
+    if op == "ToArr":
+        return "multi::array<int, %d>(%s)" % (d, x)
+    if op in CMP_NAMES:
+        return "%s == %s" % (x, r)
+    form = conv_form(op)
+    if form:
+        t = "c16::B_%s_%d" % (conv_target(kind, op), d)
+        if form == "I":
+            if body:
+                return "c16::accept<%s>(%s)" % (t, x)
+            return "c16::accept<%s>(%s), std::declval<%s>()" % (t, x, t)
+        if form == "E":
+            return "static_cast<%s>(%s)" % (t, x)
+        return "%s = %s" % (r, x)
     t = OP_EXPR[op]
     if t is None:
         raise ValueError(op)
@@ -245,6 +441,13 @@ def expr_of(op, kind, d, x, r=None):
 # ---------------------------------------------------------------------------------------------
 # common header (written next to the generated TUs; precompiled)
 # ---------------------------------------------------------------------------------------------
+def kind_dims_canon(k):
+    if k in DIM0_KINDS:
+        return [0]
+    pre, _c, _pf = parse_kind(k)
+    return ([0] if pre in ("Sub", "CSub") else []) + list(range(1, MAXD_CANON + 1))
+
+
 def common_header():
     L = []
     a = L.append
@@ -253,23 +456,54 @@ def common_header():
     a("#define C16_COMMON_HPP")
     a("#include <boost/multi/array.hpp>")
     a("#include <cstdio>")
+    a("#include <tuple>")
     a("#include <type_traits>")
     a("#include <utility>")
     a("#include <string>")
     a("namespace multi = boost::multi;")
     a("namespace c16 {")
+    a("struct S { int a; int b; };                                                   // the struct element of the projection sources")
+    a("struct LR { int&       operator()(S&       s) const { return s.b; } };         // reference-returning functor (mutable elements only)")
+    a("struct LC { int const& operator()(S const& s) const { return s.b; } };         // const-reference-returning functor")
+    a("struct LV { int        operator()(S const& s) const { return s.b; } };         // value-returning functor")
     for k in KINDS:
-        ds = [0] if k in DIM0_KINDS else ([0] if k in ("Sub0", "Sub1", "CSub0", "CSub1") else []) + list(range(1, MAXD_CANON + 1))
-        for d in ds:
+        for d in kind_dims_canon(k):
             bt = base_type(k, d)
             a("using B_%s_%d = %s;" % (k, d, bt.replace("typename ", "")))
-    a("template<class T> struct base_cls { static constexpr const char* name = nullptr; };")
-    seen = set()
-    for k in KINDS:
-        ds = [0] if k in DIM0_KINDS else ([0] if k in ("Sub0", "Sub1", "CSub0", "CSub1") else []) + list(range(1, MAXD_CANON + 1))
-        for d in ds:
-            a("template<> struct base_cls<B_%s_%d> { static constexpr const char* name = \"%s.%d\"; };" % (k, d, k, d))
     a(r'''
+// pointer family of an element pointer type (functor-agnostic for transform_ptr)
+template<class P> struct pf { static constexpr const char* n = nullptr; };
+template<> struct pf<int*>       { static constexpr const char* n = "0"; };
+template<> struct pf<int const*> { static constexpr const char* n = "1"; };
+template<> struct pf<S*>         { static constexpr const char* n = "S0"; };
+template<> struct pf<S const*>   { static constexpr const char* n = "S1"; };
+template<> struct pf<multi::move_ptr<int, int*>> { static constexpr const char* n = "M"; };
+template<class F> struct pf<multi::transform_ptr<int, F, S*,       int&>>       { static constexpr const char* n = "TmR"; };
+template<class F> struct pf<multi::transform_ptr<int, F, S*,       int const&>> { static constexpr const char* n = "TmC"; };
+template<class F> struct pf<multi::transform_ptr<int, F, S const*, int const&>> { static constexpr const char* n = "TcC"; };
+template<class F> struct pf<multi::transform_ptr<int, F, S*,       int>>        { static constexpr const char* n = "TmV"; };
+template<class F> struct pf<multi::transform_ptr<int, F, S*,       int const>>  { static constexpr const char* n = "TmV"; };
+template<class F> struct pf<multi::transform_ptr<int, F, S const*, int>>        { static constexpr const char* n = "TcV"; };
+template<class F> struct pf<multi::transform_ptr<int, F, S const*, int const>>  { static constexpr const char* n = "TcV"; };
+template<class E> struct el { static constexpr bool ok = false; };
+template<> struct el<int> { static constexpr bool ok = true; };
+template<> struct el<S>   { static constexpr bool ok = true; };
+// kind descriptor of an unqualified type: prefix, IsConst digit, pointer family, dimensionality
+template<class T, class = void> struct kd { static constexpr const char* pre = nullptr; static constexpr const char* c = ""; static constexpr const char* p = ""; static constexpr long d = 0; };
+template<> struct kd<int> { static constexpr const char* pre = "Elem"; static constexpr const char* c = ""; static constexpr const char* p = ""; static constexpr long d = 0; };
+template<class P> struct kd<P, std::enable_if_t<pf<P>::n != nullptr>> { static constexpr const char* pre = "Pt"; static constexpr const char* c = ""; static constexpr const char* p = pf<P>::n; static constexpr long d = 0; };
+template<multi::dimensionality_type D> struct kd<multi::array<int, D>>        { static constexpr const char* pre = "Arr";  static constexpr const char* c = ""; static constexpr const char* p = ""; static constexpr long d = D; };
+template<multi::dimensionality_type D> struct kd<multi::static_array<int, D>> { static constexpr const char* pre = "SArr"; static constexpr const char* c = ""; static constexpr const char* p = ""; static constexpr long d = D; };
+template<multi::dimensionality_type D> struct kd<multi::array<S, D>>          { static constexpr const char* pre = "ArrS"; static constexpr const char* c = ""; static constexpr const char* p = ""; static constexpr long d = D; };
+template<class E, multi::dimensionality_type D, class P> struct kd<multi::array_ref<E, D, P>, std::enable_if_t<el<E>::ok>>      { static constexpr const char* pre = "ARef"; static constexpr const char* c = ""; static constexpr const char* p = pf<P>::n; static constexpr long d = D; };
+template<class E, multi::dimensionality_type D, class P> struct kd<multi::subarray<E, D, P>, std::enable_if_t<el<E>::ok>>       { static constexpr const char* pre = "Sub";  static constexpr const char* c = ""; static constexpr const char* p = pf<P>::n; static constexpr long d = D; };
+template<class E, multi::dimensionality_type D, class P> struct kd<multi::const_subarray<E, D, P>, std::enable_if_t<el<E>::ok>> { static constexpr const char* pre = "CSub"; static constexpr const char* c = ""; static constexpr const char* p = pf<P>::n; static constexpr long d = D; };
+template<multi::dimensionality_type D, class P, bool C> struct kd<multi::array_iterator<int, D, P, C>> { static constexpr const char* pre = "It"; static constexpr const char* c = C ? "1" : "0"; static constexpr const char* p = pf<P>::n; static constexpr long d = D; };
+template<multi::dimensionality_type D, class P, bool C> struct kd<multi::subarray_ptr<int, D, P, multi::layout_t<D>, C>> { static constexpr const char* pre = "SP"; static constexpr const char* c = C ? "1" : "0"; static constexpr const char* p = pf<P>::n; static constexpr long d = D; };
+template<class P, multi::dimensionality_type D> struct kd<multi::elements_range_t<P, multi::layout_t<D>>>    { static constexpr const char* pre = "ER"; static constexpr const char* c = ""; static constexpr const char* p = pf<P>::n; static constexpr long d = D; };
+template<class P, multi::dimensionality_type D> struct kd<multi::elements_iterator_t<P, multi::layout_t<D>>> { static constexpr const char* pre = "EI"; static constexpr const char* c = ""; static constexpr const char* p = pf<P>::n; static constexpr long d = D; };
+template<class P, multi::dimensionality_type D, class St> struct kd<multi::cursor_t<P, D, St>>               { static constexpr const char* pre = "Cu"; static constexpr const char* c = ""; static constexpr const char* p = pf<P>::n; static constexpr long d = D; };
+
 template<class...> using void_t = void;
 template<class, template<class> class Op, class X> struct detector : std::false_type { using type = void; };
 template<template<class> class Op, class X> struct detector<void_t<Op<X>>, Op, X> : std::true_type { using type = Op<X>; };
@@ -281,11 +515,15 @@ template<class R> std::string classify() {
 	using NR = std::remove_reference_t<R>;
 	using B  = std::remove_cv_t<NR>;
 	if constexpr(std::is_void_v<R>) { return "To:Void"; }
-	else if constexpr(base_cls<B>::name == nullptr) { return "To:Other"; }
+	else if constexpr(kd<B>::pre == nullptr || kd<B>::p == nullptr) { return "To:Other"; }
 	else if constexpr(std::is_same_v<B, int> && !std::is_reference_v<R>) { return "To:Val"; }
 	else {
+		std::string k = kd<B>::pre;
+		// S-element kinds exist only as subarray / const_subarray / pointer / array
+		if(std::string(kd<B>::p).substr(0, 1) == "S" && k != "Sub" && k != "CSub" && k != "Pt") { return "To:Other"; }
 		std::string s = "To:";
-		s += base_cls<B>::name;
+		if((k == "Arr" || k == "SArr" || k == "ArrS") && !std::is_reference_v<R>) { s += "Copy:"; }   // a prvalue owning array: a detached copy
+		s += k; s += kd<B>::c; s += kd<B>::p; s += "."; s += std::to_string(kd<B>::d);
 		s += std::is_const_v<NR> ? ".c" : ".m";
 		s += std::is_lvalue_reference_v<R> ? ".L" : ".R";
 		return s;
@@ -302,6 +540,8 @@ template<class A, class B> auto adl_swap(A&& a, B&& b) -> decltype(swap_ns::adl_
 // type-level stand-ins for `auto&& x = e;` / `auto const& x = e;` followed by the name x, usable inside one expression
 template<class T> auto bind_ref (T&& t) -> std::remove_reference_t<T>&       { return static_cast<std::remove_reference_t<T>&>(t); }
 template<class T> auto bind_cref(T&& t) -> std::remove_reference_t<T> const& { return t; }
+// implicit conversion to T: copy-initialisation of a by-value parameter (the argument is converted at the call site)
+template<class T> void accept(T) {}
 // forces code generation for an instantiated probe body, so that a member that is declared but never defined
 // shows up as an undefined reference at link time
 inline void (*volatile sink)() = nullptr;
@@ -315,10 +555,12 @@ inline void emit(char const* st, char const* op, std::string const& out) { std::
 
 def op_alias(op, kind, d):
     """alias-template name and definition for the detection idiom"""
-    if op in ("CallAll",):
+    if op in ("CallAll", "Apply", "ToArr"):
         name = "op_%s_%d" % (op, d)
     elif op in ("Assign", "Fill"):
         name = "op_%s_%s_%d" % (op, kind if kind in VIEW_KINDS + RANGE_KINDS else "x", d)
+    elif conv_form(op) or op in CMP_NAMES:
+        name = "op_%s_%s_%d" % (op, conv_target(kind, op), d)
     else:
         name = "op_%s" % op
     if op == "BindRef":
@@ -330,26 +572,30 @@ def op_alias(op, kind, d):
     return name, "template<class X> using %s = %s;" % (name, body)
 
 
+def body_expr(st, op):
+    """(parameter list, expression) of the function body that instantiates the row's expression"""
+    rt = rhs_type(op, st.kind, st.d)
+    e = expr_of(op, st.kind, st.d, "static_cast<XX>(x)", "r", body=True)
+    if op in ("Swap", "MSwap"):
+        e = e.replace("static_cast<XX>(x), static_cast<XX>(x)", "static_cast<XX>(x), static_cast<XX>(y)")
+        e = e.replace(".swap(static_cast<XX>(x))", ".swap(static_cast<XX>(y))")
+        return "XX x, XX y", e
+    if rt:
+        return "XX x, %s r" % rt, e
+    return "XX x", e
+
+
 def row_line(idx, st, op):
     """one line of C++ defining row_<idx>()"""
     name, _ = op_alias(op, st.kind, st.d)
-    X = st.cxx()
     mut = op in MUTATOR_NAMES
     lang = op in ("BindRef", "BindCRef")
     if lang:
         inst = ""
     else:
         # instantiate the expression inside a body: X is a reference type, static_cast<X>(x) restores the category
-        rt = rhs_type(op, st.kind, st.d)
-        e = expr_of(op, st.kind, st.d, "static_cast<XX>(x)", "r")
-        if op in ("Swap", "MSwap"):
-            e = e.replace("static_cast<XX>(x), static_cast<XX>(x)", "static_cast<XX>(x), static_cast<XX>(y)")
-            e = e.replace(".swap(static_cast<XX>(x))", ".swap(static_cast<XX>(y))")
-            inst = " auto f = [](XX x, XX y) { (void)(%s); }; c16::keep(+f);" % e
-        elif rt:
-            inst = " auto f = [](XX x, %s r) { (void)(%s); }; c16::keep(+f);" % (rt, e)
-        else:
-            inst = " auto f = [](XX x) { (void)(%s); }; c16::keep(+f);" % e
+        params, e = body_expr(st, op)
+        inst = " auto f = [](%s) { (void)(%s); }; c16::keep(+f);" % (params, e)
     res = '"Mut"' if mut else "c16::classify<c16::detected_t<%s, XX>>()" % name
     return ("template<class XX> void row_%d() { if constexpr(c16::is_detected_v<%s, XX>) { c16::emit(\"%s\", \"%s\", %s);%s } "
             "else { c16::emit(\"%s\", \"%s\", \"No\"); } }"
@@ -382,21 +628,33 @@ def single_row_tu(st, op, pch_name="c16_common.hpp"):
     """A TU that uses the expression of one row unconditionally: must fail to compile when the row is Hard
     (and also when it is No); compiles when the row is well-formed."""
     X = st.cxx()
-    rt = rhs_type(op, st.kind, st.d)
     if op in ("BindRef", "BindCRef"):
         return '#include "%s"\nusing XX = %s;\nusing R = c16::%s<XX>;\nint main() { return 0; }\n' % (pch_name, X, "bind_ref_t" if op == "BindRef" else "bind_cref_t")
-    e = expr_of(op, st.kind, st.d, "static_cast<XX>(x)", "r")
-    if op in ("Swap", "MSwap"):
-        e = e.replace("static_cast<XX>(x), static_cast<XX>(x)", "static_cast<XX>(x), static_cast<XX>(y)").replace(".swap(static_cast<XX>(x))", ".swap(static_cast<XX>(y))")
-        return '#include "%s"\nusing XX = %s;\nvoid probe(XX x, XX y) { (void)(%s); }\nint main() { return 0; }\n' % (pch_name, X, e)
-    if rt:
-        return '#include "%s"\nusing XX = %s;\nvoid probe(XX x, %s r) { (void)(%s); }\nint main() { return 0; }\n' % (pch_name, X, rt, e)
-    return '#include "%s"\nusing XX = %s;\nvoid probe(XX x) { (void)(%s); }\nint main() { return 0; }\n' % (pch_name, X, e)
+    params, e = body_expr(st, op)
+    return '#include "%s"\nusing XX = %s;\nvoid probe(%s) { (void)(%s); }\nint main() { return 0; }\n' % (pch_name, X, params, e)
 
 
-def all_rows(kinds=None, ops=None, maxd=3):
+def must_fail_tu(rows, pch_name="c16_common.hpp"):
+    """A TU with one ordinary function per row, each on its own line, that uses the row's expression unconditionally.
+    Compiled with -fsyntax-only -fmax-errors=0: a row whose line gets an error is ill-formed; a row whose line gets none
+    has to be compiled alone (an error inside a template that an earlier row already instantiated is reported once)."""
+    L = ['#include "%s"' % pch_name]
+    linemap = {}
+    for i, (st, op) in enumerate(rows):
+        if op in ("BindRef", "BindCRef"):
+            L.append("using R_%d = c16::%s<%s>;" % (i, "bind_ref_t" if op == "BindRef" else "bind_cref_t", st.cxx()))
+        else:
+            params, e = body_expr(st, op)
+            xx = "XX_%d" % i
+            L.append("using %s = %s; void probe_%d(%s) { (void)(%s); }" % (xx, st.cxx(), i, re.sub(r"\bXX\b", xx, params), re.sub(r"\bXX\b", xx, e)))
+        linemap[len(L)] = i
+    L.append("int main() { return 0; }")
+    return "\n".join(L) + "\n", linemap
+
+
+def all_rows(kinds=None, ops=None, maxd=3, maxd_new=None):
     out = []
-    for st in all_states(kinds, maxd):
+    for st in all_states(kinds, maxd, maxd_new):
         for op in (ops or OP_NAMES):
             if applicable(st.kind, op):
                 out.append((st, op))
@@ -404,20 +662,28 @@ def all_rows(kinds=None, ops=None, maxd=3):
 
 
 # ---------------------------------------------------------------------------------------------
-# direct enumeration of access paths from the six kinds of root (independent of the model)
+# direct enumeration of access paths from the roots (independent of the model)
 # ---------------------------------------------------------------------------------------------
-ROOTS = [  # (name, const-rooted?, declaration template, expression)
+ROOTS = [  # (name, const-rooted?)
     ("array", False),
     ("array_const", True),
     ("static_array", False),
     ("array_ref", False),
     ("view_fwd", False),        # auto&& v = A();
     ("view_cref", True),        # auto const& v = A();
+    # the same kinds of root for the projections: a struct-element array and its projection views
+    ("arrayS", False),          # multi::array<S, D>
+    ("arrayS_const", True),
+    ("proj_fwd", False),        # auto&& p = AS.element_transformed(&S::b);
+    ("proj_cref", True),        # auto const& cp = p;
+    ("moved_fwd", False),       # auto&& m = A().element_moved();
+    ("moved_cref", True),       # auto const& cm = m;
 ]
+OLD_ROOTS = ["array", "array_const", "static_array", "array_ref", "view_fwd", "view_cref"]
 
 
 def roots_header():
-    """real declarations of the six kinds of root for D = 1..3; the root *types* used by the path probes are
+    """real declarations of the roots for D = 1..3; the root *types* used by the path probes are
     decltype((variable)) of these declarations."""
     L = ["namespace c16roots {"]
     for d in (1, 2, 3):
@@ -430,22 +696,28 @@ def roots_header():
         L.append("inline multi::array<int, %d> VA%d(multi::extensions_t<%d>%s, 0);" % (d, d, d, ext))
         L.append("inline auto&& VF%d = VA%d();" % (d, d))
         L.append("inline auto const& VC%d = VA%d();" % (d, d))
-        L.append("using T_array_%d = decltype((A%d));" % (d, d))
-        L.append("using T_array_const_%d = decltype((CA%d));" % (d, d))
-        L.append("using T_static_array_%d = decltype((SA%d));" % (d, d))
-        L.append("using T_array_ref_%d = decltype((AR%d));" % (d, d))
-        L.append("using T_view_fwd_%d = decltype((VF%d));" % (d, d))
-        L.append("using T_view_cref_%d = decltype((VC%d));" % (d, d))
+        L.append("inline multi::array<c16::S, %d> AS%d(multi::extensions_t<%d>%s, c16::S{1, 2});" % (d, d, d, ext))
+        L.append("inline multi::array<c16::S, %d> const CAS%d(multi::extensions_t<%d>%s, c16::S{1, 2});" % (d, d, d, ext))
+        L.append("inline auto&& PF%d = AS%d.element_transformed(&c16::S::b);" % (d, d))
+        L.append("inline auto const& PC%d = PF%d;" % (d, d))
+        L.append("inline auto&& MF%d = VA%d().element_moved();" % (d, d))
+        L.append("inline auto const& MC%d = MF%d;" % (d, d))
+        for name, var in (("array", "A"), ("array_const", "CA"), ("static_array", "SA"), ("array_ref", "AR"), ("view_fwd", "VF"),
+                          ("view_cref", "VC"), ("arrayS", "AS"), ("arrayS_const", "CAS"), ("proj_fwd", "PF"), ("proj_cref", "PC"),
+                          ("moved_fwd", "MF"), ("moved_cref", "MC")):
+            L.append("using T_%s_%d = decltype((%s%d));" % (name, d, var, d))
     L.append("}  // namespace c16roots")
     return "\n".join(L) + "\n"
 
 
 ROOT_STATE = {"array": "Arr.%d.m.L", "array_const": "Arr.%d.c.L", "static_array": "SArr.%d.m.L",
-              "array_ref": "ARef0.%d.m.L", "view_fwd": "Sub0.%d.m.L", "view_cref": "Sub0.%d.c.L"}
+              "array_ref": "ARef0.%d.m.L", "view_fwd": "Sub0.%d.m.L", "view_cref": "Sub0.%d.c.L",
+              "arrayS": "ArrS.%d.m.L", "arrayS_const": "ArrS.%d.c.L", "proj_fwd": "SubTmR.%d.m.L", "proj_cref": "SubTmR.%d.c.L",
+              "moved_fwd": "SubM.%d.m.L", "moved_cref": "SubM.%d.c.L"}
 
 
 def path_expr(steps, x):
-    """steps: list of (op, kind, d) -- kind/d of the receiver at that step (needed for CallAll and the mutators)."""
+    """steps: list of (op, kind, d) -- kind/d of the receiver at that step (needed for CallAll, the conversions and the mutators)."""
     e = x
     for op, kind, d in steps:
         if op == "BindRef":
@@ -479,7 +751,7 @@ def paths_tu(paths, pch_name="c16_common.hpp"):
 if __name__ == "__main__":
     import sys
     rows = all_rows()
-    print("states", len(all_states()), "rows", len(rows), file=sys.stderr)
+    print("kinds", len(KINDS), "ops", len(OP_NAMES), "states", len(all_states()), "rows", len(rows), file=sys.stderr)
     if len(sys.argv) > 1 and sys.argv[1] == "header":
         sys.stdout.write(common_header())
     elif len(sys.argv) > 1 and sys.argv[1] == "sample":
